@@ -15,6 +15,7 @@ const char * prop_rule() {
 }
 
 std::string prop_generate(Tape & t, int size) {
+    gen_allow_q() = true;   // integer signals may carry a fixed-point exponent in their data type
     GenOpts go;
     go.allow_big = size >= 70;
     go.allow_gaps = true;
